@@ -303,8 +303,19 @@ func (c *Ctx) c06ReadOnly() {
 				return
 			}
 			tn, _, _, _ := flow.FieldOf(st.Addr)
+			// the object written into: the innermost struct, or the object the access path starts from
+			// (m.index.first = … writes into the Message although the innermost struct is a helper type)
 			if tn != "Message" && tn != "Header" && tn != "AVP" && tn != "GroupedAVP" {
-				return
+				rn := ""
+				if pt, ok := flow.Peel(root).Type().Underlying().(*types.Pointer); ok {
+					if nt := flow.NamedOf(pt.Elem()); nt != nil && nt.Obj().Pkg() != nil && nt.Obj().Pkg().Path() == pkgDiam {
+						rn = nt.Obj().Name()
+					}
+				}
+				if rn != "Message" && rn != "Header" && rn != "AVP" && rn != "GroupedAVP" {
+					return
+				}
+				tn = rn
 			}
 			n++
 			// root: parameter (or spilled parameter / loaded from one) = the caller's object
